@@ -26,22 +26,30 @@ TRUSTED = [
     'the Lean predicate engine codec.c02 evaluated on the implementation output; plain-build bulk engine codecp',
 ]
 MANIFEST = {
-    'text': 'Lean theorems: decode_encode_ustar (an entry ustar can represent is accepted with ARCHIVE_OK, its 512 bytes pass '
-            'the reader checksum and decode to norm(e)); stream_roundtrip_ustar (any list of entries, each body written in any '
-            'chunking - truncated to the declared size, zero filled, padded to 512 - two zero blocks, any block padding: the tar '
-            'reader model returns exactly the accepted entries in order, each exact, bodies byte-identical, clean EOF; refused '
-            'entries leave no trace); body framing independent of the chunking; pax_len_fixed_point (the decimal length prefix of '
-            'a pax record equals the record length for every key and value); norm_path_idem. Tie: extracted layouts; the codec '
-            'engine compares model and real writer/reader byte for byte on ustar/odc/newc (incl. block padding and a second '
-            'write of the read-back entries) and, for all 17 readable formats x chunkings x block sizes x filters, evaluates on '
+    'text': 'Lean theorems over byte-exact models tied to the C by the codec engine: ustar - decode_encode_ustar, '
+            'stream_roundtrip_ustar (any list of entries, bodies in any chunking, truncated / zero filled / padded, two zero '
+            'blocks, any block padding: the reader returns exactly the accepted entries in order, bodies byte-identical), '
+            'readback_fixed_point_ustar (write -> decode -> write the decoded record -> decode gives the same record); cpio - '
+            'stream_roundtrip_newc, stream_roundtrip_odc and their "every list of representable entries" forms with '
+            'representable_{newc,odc}_accepted (110 / 76 byte headers, name NUL and 4-byte padding, symlink bodies, body '
+            'padding, inode synthesis of odc, the TRAILER!!! entry, refused entries leave no trace); ar - decode_encode_ar, '
+            'stream_roundtrip_ar for the BSD and SVR4 variants (60-byte header, name/ and name-blank forms, BSD #1/<len> long '
+            'names in front of the body, the pad byte, the global header written with the first member or at close); pax - '
+            'pax_len_fixed_point, paxRecords_roundtrip (any key/value list, values of any bytes, is split back by the '
+            "reader's header_pax_extension loop), pax_number_roundtrip, decode_encode_pax_partial; body framing independent "
+            'of chunking; norm_path_idem. Tie: extracted layouts; the codec engine compares model and real writer/reader byte '
+            'for byte on ustar/odc/newc/arbsd/arsvr4 (incl. block padding and a second write of the read-back entries), the '
+            'pax record writer (paxrec) and the pax record parser (paxbody, observed through SCHILY.xattr attributes) '
+            'against the real functions, and, for all 17 readable formats x chunkings x block sizes x filters, evaluates on '
             'the real code: representable => ARCHIVE_OK, read-back == norm, detected format == written, clean EOF, and the '
             'fixed point (read-back entries written again, into the same or another format, read back unchanged). Further '
             'generator dimensions: archives of 9..33 entries with the optional times present at varying positions; sparse maps whose '
             'text form is 510..514 / 1022..1026 bytes long; access, default, access+default and NFSv4 ACLs and extended attributes '
             'on files and directories; Unicode names whose UTF-16 units have a 0x2F / 0x5C / 0x00 byte, also read through the Joliet '
             'tree and under hdrcharset conversions.',
-    'note': 'partial: proof for ustar (header + stream) and pax record lengths; cpio odc/newc header fields in C10; all other '
-            'formats and the fixed-point clause beyond pathnames are checked differentially against the spec only.',
+    'note': 'partial: proofs for ustar, cpio odc/newc and ar (headers + whole streams) and the pax record layer; the pax '
+            "writer's attribute selection, time text form and trailing ustar header, the SVR4 ar filename table, and all other "
+            'formats are checked differentially against the spec only.',
     'technique': 'Lean 4 proof (well-founded reader over the stream, induction over entries, fold lemma for arbitrary chunkings) '
                  '+ extraction + model/C differential correspondence + Lean-evaluated round-trip predicate on the C output',
 }
